@@ -39,6 +39,17 @@ Theorem C05_update_full_write : forall shell s0 s1, wf_file s1 -> shell < length
 Proof. exact update_is_full_write. Qed.
 Print Assumptions C05_update_full_write.
 
+(* Sampler.__init__(resume=True) reads back exactly the state a full write stored -- and hence exactly the newer state from
+   a file maintained by incremental updates *)
+Theorem C05_read_write : forall s dflt, wf_file s -> 0 < length (sf_points s) ->
+  read_file (sf_static s) (length (sf_points s)) dflt (write_file s) = Some s.
+Proof. exact read_write. Qed.
+Print Assumptions C05_read_write.
+Theorem C05_read_update : forall shell s0 s1 dflt, wf_file s1 -> shell < length (sf_points s1) -> batch_frame shell s0 s1 ->
+  read_file (sf_static s1) (length (sf_points s1)) dflt (upd_file (write_file s0) s1 shell) = Some s1.
+Proof. exact read_update. Qed.
+Print Assumptions C05_read_update.
+
 (* and that is all a batch or a toggle changes in the shell machine: one shell (its bound, exploration counters and
    position unchanged), the transfer marks and n_like -- resp. only the flag *)
 Theorem C05_batch_frame : forall contains in_cube lik blob n_batch s idx rounds vals s',
